@@ -106,12 +106,17 @@ def small_tensor(w: World, a: int, name=None):
 def bad_node(w: World, c, kind: int):
     """A node that makes a node-sequence call on container c raise (or None if none exists)."""
     g = cgraph(c) if c is not None else None
+    if kind % 5 == 4:
+        # not a node at all (rejected calls of the TypeError / AttributeError class)
+        return ["oops", 3, w.value(kind // 5)][(kind // 5) % 3]
     if kind % 2 == 0:
         return pick_where(w.nodes, kind, lambda n: n.graph is not None and n.graph is not g, fallback=False)
     return pick_where(w.nodes, kind, lambda n: n.graph is None, fallback=False)  # e.g. as an anchor / removal of a foreign node
 
 
 def bad_value_for_io(w: World, g, kind: int, outputs: bool):
+    if kind % 7 == 6:
+        return ["oops", 3, w.node(kind // 7)][(kind // 7) % 3]  # not a value at all
     k = kind % 3
     if k == 0:
         return pick_where(w.values, kind, lambda v: v.graph is not None and v.graph is not g and (v.is_graph_input() or v.is_graph_output() or v.is_initializer()), fallback=False)
